@@ -1357,6 +1357,9 @@ def own_tag(term, kind):
 
 def c19_two(res, g):
     """two-team games: BT partial pairing returns exactly what BT full pairing returns"""
+    if len(g["teams"]) != 2:
+        res.count("two_team_comparison_skipped_not_two_teams")
+        return
     a = dict(g); a["kind"] = "BTF"
     b = dict(g); b["kind"] = "BTP"
     try:
